@@ -19,7 +19,7 @@ RULE = ("modes hdr_write / hdr_http / redirect: every status code 100..999 at le
         "reason bytes taken from the compiled http crate), non-constructible codes, header lists of 0..6 (a few up to 40) "
         "entries with empty names/values and arbitrary bytes (mostly without, some with newline), every destination capacity "
         "0..len+1 for a sample of header lists and redirects, random capacities, Vec destinations with and without existing "
-        "contents, http::Response with lower-case token names, several values under one name included (listed adjacently = HeaderMap iteration order); a case is non-trivial when it has at least one header / "
+        "contents (each unbounded case repeated in the harness on a destination that takes 3, 2, 5, 1 bytes per call, and on one that additionally reports the transient Interrupted: same bytes and count), http::Response with lower-case token names, several values under one name included (listed adjacently = HeaderMap iteration order); a case is non-trivial when it has at least one header / "
         "a non-empty location or a bounded destination not larger than the text; distinct = distinct case lines")
 ASSUMPTIONS = [
     "precondition of write_headers (documented, debug_assert! at response.rs:81): no header name equals `status` "
